@@ -193,6 +193,14 @@ def scenario(crop="Maize", soil="SandyLoam", regime=None, seed=1, plant_md=(4, 2
     return sc
 
 
+def builtin_scenario(crop, year, plant="05/01", file="tunis_climate.txt", end=None, soil="SandyLoam", **over):
+    """scenario on one of the repository's weather files (real Mediterranean / continental sequences)"""
+    sc = {"start": f"{year}/{plant}", "end": end or f"{year}/12/31", "weather": {"file": file},
+          "crop": {"name": crop, "planting_date": plant, "harvest_date": None}, "soil": {"type": soil}, "iwc": {"value": ["FC"]}, "off_season": False}
+    sc.update(over)
+    return sc
+
+
 def storm_events(year, plant_md, amounts=(150, 300, 80)):
     p = dt.date(year, plant_md[0], plant_md[1])
     return [{"date": dstr(p + dt.timedelta(days=10 + 23 * i)), "P": a} for i, a in enumerate(amounts)]
@@ -274,8 +282,10 @@ def hard_cases(rnd, n=None, year=2001):
     ]
     cases += [
         # net irrigation on contrasting layers with roots in the second layer
-        S("Wheat", seed=rnd.randrange(10 ** 6), soil_spec=LAYERED_SOILS["sand_over_clay"], irr={"method": 4, "kw": {"NetIrrSMT": 90}}, seasons=2,
-          iwc={"value": ["WP", "WP"], "depth_layer": [1, 2]}, regime="arid"),
+        S("Wheat", seed=rnd.randrange(10 ** 6), soil_spec=LAYERED_SOILS["sand_over_clay"], irr={"method": 4, "kw": {"NetIrrSMT": 80}}, seasons=2,
+          iwc={"value": ["FC", "FC"], "depth_layer": [1, 2]}, regime="arid"),
+        # mild, persistent water stress (leaf expansion restricted, stomata open): harvest-index adjustment at its cap
+        builtin_scenario(rnd.choice(["CottonGDD", "Cotton"]), rnd.choice([1984, 1987, 1988]), irr={"method": 1, "kw": {"SMT": [20] * 4, "MaxIrr": 6}}),
         # ponded field whose pond is dried out by evaporation, with mulches / partially wetting irrigation
         S("PaddyRice", "Paddy", seed=rnd.randrange(10 ** 6), regime="warm", field={"bunds": True, "z_bund": 0.1, "mulches": True, "mulch_pct": 80, "f_mulch": 0.7},
           iwc={"value": ["FC", "FC"], "depth_layer": [1, 2]}, seasons=2, off_season=True),
